@@ -62,6 +62,7 @@ fn main() {
             chess::check_family(&mut out, &mut rng, n.max(1) as u64, s2)
         }
         "pinfamily" => chess::pin_family(&mut out, &mut rng, n.max(1) as u64),
+        "walk" => chess::walks(&mut out, &mut rng, n.max(1) as u64),
         "fen" => {
             let seeds: usize = args.get(3).and_then(|s| s.parse().ok()).unwrap_or(2);
             fen::run(&mut out, &mut rng, n, seeds)
